@@ -144,6 +144,19 @@ func (f *File) AddMediaSegment(m *MediaSegment) {
 	f.Segments = append(f.Segments, m)
 }
 
+// countingReader counts the bytes read from r, so that box start positions
+// follow the input and not the re-calculated box sizes.
+type countingReader struct {
+	r       io.Reader
+	nrBytes uint64
+}
+
+func (c *countingReader) Read(p []byte) (int, error) {
+	n, err := c.r.Read(p)
+	c.nrBytes += uint64(n)
+	return n, err
+}
+
 // DecodeFile - parse and decode a file from reader r with optional file options.
 // For example, the file options overwrite the default decode or encode mode.
 func DecodeFile(r io.Reader, options ...Option) (*File, error) {
@@ -171,6 +184,19 @@ func DecodeFile(r io.Reader, options ...Option) (*File, error) {
 		}
 	}
 
+	// The start position of the next box is where the input is after the previous one,
+	// which differs from the sum of box.Size() when a box is re-sized on encoding
+	// (e.g. a small box with a 16-byte largesize header).
+	var lazyStartPos int64
+	if f.fileDecMode == DecModeLazyMdat {
+		var err error
+		lazyStartPos, err = rs.Seek(0, io.SeekCurrent)
+		if err != nil {
+			return nil, err
+		}
+	}
+	cr := &countingReader{r: r}
+
 LoopBoxes:
 	for {
 		var box Box
@@ -179,7 +205,7 @@ LoopBoxes:
 		case DecModeLazyMdat:
 			box, err = DecodeBoxLazyMdat(boxStartPos, rs)
 		case DecModeNormal:
-			box, err = DecodeBox(boxStartPos, r)
+			box, err = DecodeBox(boxStartPos, cr)
 		default:
 			return nil, fmt.Errorf("unknown DecFileMode=%d", f.fileDecMode)
 		}
@@ -189,7 +215,7 @@ LoopBoxes:
 		if err != nil {
 			return nil, err
 		}
-		boxType, boxSize := box.Type(), box.Size()
+		boxType := box.Type()
 		switch boxType {
 		case "mdat":
 			if f.isFragmented {
@@ -232,7 +258,15 @@ LoopBoxes:
 		}
 		f.AddChild(box, boxStartPos)
 		lastBoxType = boxType
-		boxStartPos += boxSize
+		if f.fileDecMode == DecModeLazyMdat {
+			pos, err := rs.Seek(0, io.SeekCurrent)
+			if err != nil {
+				return nil, err
+			}
+			boxStartPos = uint64(pos - lazyStartPos)
+		} else {
+			boxStartPos = cr.nrBytes
+		}
 	}
 	f.tfra = nil // Not needed anymore
 	return f, nil
